@@ -24,12 +24,15 @@ def run(ctx):
     ctx.trust("rustc MIR; snowfacts; effect analysis over-approximates writes (sound for 'nothing else is written')")
     ctx.assume("a cipher object's observable state is its last set() key; Dh/Hash/Cipher &self methods do not mutate (Freeze, C16)")
     ctx.rule("toggle-disable", "a key toggle is switched off only where that same toggle was observed off (roll-back of an enable, never loss of a known key)")
+    ctx.rule("overwritten-before-use", "inside the arm of the token that stores re/rs, the field is written before it is read (justifies the allow-table entries)")
     for cfg in ctx.cfgs:
         F = ctx.facts[cfg]
         E = ctx.eff(cfg)
         n = errpath.check_errpath(ctx, cfg)
         ctx.floor("errpath-write", n, 6, cfg)
         errpath.check_toggle_disable(ctx, cfg)
+        o = errpath.check_overwrite_before_use(ctx, cfg)
+        ctx.floor("overwritten-before-use", o, 2, cfg)
         p = errpath.check_progress_writes(ctx, cfg)
         ctx.floor("progress-on-ok", p, 6, cfg)
         h = errpath.check_hasher_reset(ctx, cfg)
